@@ -418,6 +418,9 @@ class Circuit:
     def finalize(self) -> None:
         """A wrapper for _finalize()."""
         if not self._finalized:
+            # references by name in events and event filters ('_not_NAME' shortcuts may
+            # create new inverter blocks) must be resolved before the circuit gets frozen
+            self._resolver.resolve()
             self._finalize()
             self._finalized = True
 
